@@ -246,3 +246,125 @@ def run_wb(case):
     lines.append("end")
     return {"lines": lines, "obs": obs, "fails": fails, "stats": stats, "key": "|".join(lines[:len(subs) + 1]) + str(case["idx"]),
             "descr": f"wishbone.Decoder aw={aw} dw={dw} gran={gran} features={sorted(feats)} alignment={al} windows={[(wins[id(t[0].memory_map)], 'sparse' if t[1] else 'dense', sorted(t[2])) for t in subs]}"}
+
+
+# ---------------------------------------------------------------------------------------------
+# C06 closing clause: registers spread over a tree of decoders vs the same registers on ONE
+# multiplexer at the addresses the memory map reports — simulated side by side
+def run_treeflat(case):
+    from .muxsim import El
+    from amaranth import Module, Signal
+    rnd = lib.rng_for(case["seed"], case["idx"], 6606)
+    dw = rnd.choice([8, 8, 16])
+    aw = rnd.randint(4, 7)
+    top = Module()
+    keep = []
+
+    def mk_mux(aw_max):
+        a = rnd.randint(1, aw_max)
+        mm = MemoryMap(addr_width=a, data_width=dw, alignment=rnd.choice([0, 0, 1]))
+        regs = []
+        for i in range(rnd.randint(1, 3)):
+            w = rnd.choice([1, dw, dw + 3, 2 * dw, 3 * dw])
+            e = El(w, rnd.choice(["r", "w", "rw", "rw"]))
+            try:
+                kw = {"addr": rnd.randrange(0, 1 << a, 1 << mm.alignment)} if rnd.random() < .4 else {}
+                mm.add_resource(e, name=f"e{len(keep)}_{i}", size=(w + dw - 1) // dw, **kw)
+                regs.append(e)
+            except ValueError:
+                pass
+        mux = csr.Multiplexer(mm, shadow_overlaps=rnd.choice([None, None, 1, 2]))
+        top.submodules[f"mux{len(keep)}"] = mux
+        keep.append(mux)
+        return mux.bus
+
+    def mk_dec(a, depth):
+        dec = csr.Decoder(addr_width=a, data_width=dw, alignment=rnd.choice([0, 0, 1]))
+        for i in range(rnd.randint(2, 3)):
+            sub = mk_dec(a - 1, depth - 1) if depth > 0 and a > 3 and rnd.random() < .3 else mk_mux(a - 1)
+            try:
+                if rnd.random() < .5:
+                    dec.add(sub, name=None if rnd.random() < .4 else f"s{len(keep)}_{i}")
+                else:
+                    unit = max(len(sub.addr), dec.bus.memory_map.alignment)
+                    dec.add(sub, name=f"s{len(keep)}_{i}", addr=(rnd.randrange(1 << a) >> unit) << unit)
+            except ValueError:
+                pass
+        top.submodules[f"dec{len(keep)}"] = dec
+        keep.append(dec)
+        return dec.bus
+
+    tbus = mk_dec(aw, 1)
+    infos = list(tbus.memory_map.all_resources())
+    if not infos:
+        return {"skip": True}
+    # the flat twin
+    fmm = MemoryMap(addr_width=aw, data_width=dw)
+    twins = []
+    for i in infos:
+        el = i.resource.element
+        t = El(el.width, el.access.value)
+        fmm.add_resource(t, name="_".join(str(x) for p in i.path for x in p), addr=i.start, size=i.end - i.start)
+        twins.append(t)
+    flat = csr.Multiplexer(fmm)
+    top.submodules.flat = flat
+    d = Signal(name="verif_dummy"); top.d.sync += d.eq(~d)
+    sim = Simulator(top)
+    sim.add_clock(1e-6)
+    fails = []
+    stats = {"cycles": 0, "registers": len(infos), "txn_done": 0, "same_low_bits_other_window": 0}
+
+    async def tb(ctx):
+        txn = []
+        last = None
+        for t in range(case["nvec"]):
+            if not txn and rnd.random() < .8:
+                i = rnd.choice(infos)
+                kind = rnd.choice(["r", "w", "rw"])
+                upto = i.end - i.start if rnd.random() < .85 else rnd.randint(0, i.end - i.start)
+                txn = [(i.start + j, kind) for j in range(upto)]
+                if last is not None and rnd.random() < .5:
+                    # provoke: same low address bits in another window right after
+                    cands = [x for x in infos if x is not last and (x.start & 3) == (last.start & 3)]
+                    if cands:
+                        j = rnd.choice(cands)
+                        txn = [(j.start + q, "r") for q in range(j.end - j.start)]
+                        stats["same_low_bits_other_window"] += 1
+                last = i
+            if txn and rnd.random() < .8:
+                addr, kind = txn.pop(0)
+                rstb, wstb = int("r" in kind), int("w" in kind)
+                if not txn:
+                    stats["txn_done"] += 1
+            else:
+                addr, rstb, wstb = rnd.randrange(1 << aw), 0, 0
+            wdata = rnd.getrandbits(dw)
+            for bus in (tbus, flat.bus):
+                ctx.set(bus.addr, addr); ctx.set(bus.r_stb, rstb); ctx.set(bus.w_stb, wstb); ctx.set(bus.w_data, wdata)
+            for i, tw in zip(infos, twins):
+                el = i.resource.element
+                if el.access.readable():
+                    v = rnd.getrandbits(el.width) if el.width else 0
+                    ctx.set(el.r_data, v); ctx.set(tw.element.r_data, v)
+            a, b = ctx.get(tbus.r_data), ctx.get(flat.bus.r_data)
+            if a != b:
+                fails.append(("C06", f"cycle {t}: decoder tree returns r_data {a:#x}, the flat multiplexer over the same registers {b:#x}", t))
+            for i, tw in zip(infos, twins):
+                el, fl = i.resource.element, tw.element
+                if el.access.readable() and ctx.get(el.r_stb) != ctx.get(fl.r_stb):
+                    fails.append(("C06", f"cycle {t}: r_stb of {i.path} differs between tree and flat multiplexer", t))
+                if el.access.writable():
+                    sa, sb = ctx.get(el.w_stb), ctx.get(fl.w_stb)
+                    if sa != sb or (sa and ctx.get(el.w_data) != ctx.get(fl.w_data)):
+                        fails.append(("C06", f"cycle {t}: w_stb/w_data of {i.path} differ between tree and flat multiplexer", t))
+            stats["cycles"] += 1
+            await ctx.tick()
+
+    sim.add_testbench(tb)
+    sim.run()
+    return {"lines": [], "obs": [], "fails": fails[:10], "stats": stats, "idx": case["idx"],
+            "descr": f"csr tree aw={aw} dw={dw}: " + " ".join(f"{'/'.join(str(tuple(p)) for p in i.path)}@{i.start}-{i.end}" for i in infos)[:300]}
+
+
+def treeflat_idx(seed, idx, nvec):
+    return run_treeflat({"seed": seed, "idx": idx, "nvec": nvec})
